@@ -12,7 +12,7 @@ import (
 )
 
 const (
-	eNone = iota
+	eNone     = iota
 	eReq      // "pj": @Tj
 	eOpt      // "pj": @Tj // {optional: true}
 	eArr      // "pj": [ @Tj ]
@@ -251,4 +251,73 @@ func ZZC09Missing() {
 func init() {
 	ZZHarnesses["ZZC09Graph"] = ZZC09Graph
 	ZZHarnesses["ZZC09Missing"] = ZZC09Missing
+	ZZHarnesses["ZZC09AllOf"] = ZZC09AllOf
+}
+
+// ZZC09AllOf: every type may inherit (allOf) from one other type; a cycle of parents anywhere must be
+// rejected, every acyclic forest accepted, and on accepted forests Example terminates and validates.
+// selfroot=1: the checked schema is type 0 itself, registered under its own name (as the
+// repository's recursion tests do); otherwise the root is a reference to type 0.
+func ZZC09AllOf() {
+	n := v.Param("types", 3)
+	parent := make([]int, n)
+	body := func(i int) string {
+		t := "{"
+		if parent[i] >= 0 {
+			t += " // {allOf: \"" + c09Name(parent[i]) + "\"}"
+		}
+		if v.Choose(0, 1) == 1 {
+			t += "\n  \"p" + string([]byte{byte('0' + i)}) + "\": 1"
+		}
+		return t + "\n}"
+	}
+	for i := 0; i < n; i++ {
+		parent[i] = v.Choose(-1, n-1)
+	}
+	selfRoot := v.Param("selfroot", 1) != 0 && v.Choose(0, 1) == 1
+	var root *jschema.Schema
+	desc := ""
+	start := 0
+	if selfRoot {
+		t := body(0)
+		root = jschema.New("@T0", t)
+		desc += "root=@T0=" + t + " "
+		v.Assert(root.AddType("@T0", root) == nil, "C09/addtype-failed")
+		start = 1
+	} else {
+		root = jschema.New("root", "@T0")
+	}
+	for i := start; i < n; i++ {
+		t := body(i)
+		desc += c09Name(i) + "=" + t + " "
+		v.Assert(root.AddType(c09Name(i), jschema.New(c09Name(i), t)) == nil, "C09/addtype-failed")
+	}
+	v.Observe("graph", desc)
+	v.Observe("selfroot", selfRoot)
+	cyclic := false
+	for i := 0; i < n; i++ {
+		j := i
+		for step := 0; step <= n && j >= 0; step++ {
+			j = parent[j]
+			if j == i {
+				cyclic = true
+			}
+		}
+	}
+	cerr := root.Check()
+	if cyclic {
+		v.Reach("C09/allof-cycle")
+		v.Assert(cerr != nil, "C09/allof-cycle-accepted")
+		return
+	}
+	v.Reach("C09/allof-forest")
+	v.Assert(cerr == nil, "C09/allof-forest-rejected")
+	if cerr != nil {
+		return
+	}
+	ex, eerr := root.Example()
+	v.Assert(eerr == nil, "C09/example-fails-on-accepted-graph")
+	if eerr == nil {
+		v.Assert(root.Validate(json.New("d", ex)) == nil, "C09/example-of-accepted-graph-rejected")
+	}
 }
